@@ -60,6 +60,16 @@ def gen_event(d, kind, ex, strand):
     the alternative isoform], t_form='inc'|'skip') or None """
     n = len(ex)
     if kind == 'SE':
+        if n >= 4 and d.chance(0.25):
+            # T carries a further exon between the event's exon and its downstream (or
+            # upstream) flank: both forms of the event differ from T; a record for T must
+            # turn it into one of them
+            i = d.randint(1, n - 3)
+            if d.chance(0.5):
+                return dict(fields=[*ex[i], *ex[i - 1], *ex[i + 2]], t_form='wide',
+                    alt=ex[:i] + ex[i + 2:], alt2=ex[:i + 1] + ex[i + 2:])
+            return dict(fields=[*ex[i + 1], *ex[i - 1], *ex[i + 2]], t_form='wide',
+                alt=ex[:i] + ex[i + 2:], alt2=ex[:i] + ex[i + 1:])
         if d.chance(0.5) and n >= 3:
             i = d.randint(1, n - 2)
             return dict(fields=[*ex[i], *ex[i - 1], *ex[i + 1]], t_form='inc',
@@ -144,6 +154,14 @@ def strategy_(draw, tier):
             ev['ijc'] = d.choice([th['min_ijc'] - 1, th['min_ijc'], th['min_ijc'] + 1, 20])
             ev['sjc'] = d.choice([th['min_sjc'] - 1, th['min_sjc'], th['min_sjc'] + 1, 20])
             events[kind] = ev
+    if events and d.chance(0.3):
+        # annotate the alternative form of one event as a further isoform of the gene: the
+        # event is then not novel and must not be reported
+        kind = d.choice(sorted(events))
+        alt = events[kind]['alt']
+        if all(g['start'] <= a < b <= g['end'] for a, b in alt):
+            g['txs'].append(dict(id='ENST00000009999.1', exons=[list(x) for x in alt], cds=None,
+                secs=[], tags=[], biotype='retained_intron', pid='ENSP00000009999.1', utr='none'))
     return dict(ref=refd, events=events, th=th)
 
 
@@ -281,9 +299,12 @@ def prop(case, ctx):
             annotated = key in all_j
         else:
             annotated = alt_j <= all_j
-        support = ev['sjc'] >= case['th']['min_sjc'] if ev['t_form'] == 'inc' else \
-            ev['ijc'] >= case['th']['min_ijc']
-        desc = f'{kind} {ev["fields"]} (T has the {"inclusion/long/first" if ev["t_form"] == "inc" else "skipped/short/second"} form, ' \
+        if ev['t_form'] == 'wide':
+            support = ev['sjc'] >= case['th']['min_sjc'] or ev['ijc'] >= case['th']['min_ijc']
+        else:
+            support = ev['sjc'] >= case['th']['min_sjc'] if ev['t_form'] == 'inc' else \
+                ev['ijc'] >= case['th']['min_ijc']
+        desc = f'{kind} {ev["fields"]} (T has the {dict(inc="inclusion/long/first", skip="skipped/short/second", wide="inclusion form plus a further exon inside the event")[ev["t_form"]]} form, ' \
             f'strand {g["strand"]}, IJC {ev["ijc"]} SJC {ev["sjc"]}, thresholds {case["th"]})'
         if annotated:
             nontrivial = True
@@ -291,7 +312,7 @@ def prop(case, ctx):
             if mine and all(junctions(e2['alt']) - junctions(t_ex) <= all_j or k2 == kind
                     for k2, e2 in case['events'].items()):
                 # the alternative form exists in an annotated isoform: nothing to report
-                if kind != 'SE':
+                if ev['t_form'] != 'wide':
                     return out.fail(f'{desc}: the alternative form is annotated in an isoform '
                         f'but {len(mine)} record(s) were emitted for {tid}', 'annotated-emitted')
             continue
@@ -308,13 +329,14 @@ def prop(case, ctx):
             out.label(kind + ':no_record')
             continue
         expect = seq_of(ref, g, ev['alt'])
+        expects = [expect] + ([seq_of(ref, g, ev['alt2'])] if ev.get('alt2') else [])
         for r in mine:
             try:
                 got = apply_record(ref, tid, r)
             except ValueError as e:
                 return out.fail(f'{desc}: record {r["id"]} {r["alt"]} {r["attrs"]} cannot be '
                     f'applied to {tid}: {e}', 'not-applicable:' + kind)
-            if got != expect:
+            if got not in expects:
                 return out.fail(f'{desc}: record {r["id"]} POS {r["pos"] + 1} {r["alt"]} '
                     f'{ {k: v for k, v in r["attrs"].items() if k in ("START", "END", "DONOR_START", "DONOR_END")} } '
                     f'applied to {tid} does not give the alternative isoform {ev["alt"]}',
